@@ -148,13 +148,37 @@ def record(job):
     return recs, stats
 
 
+def ctx_class(c):
+    def kind(v):
+        if v is None:
+            return 'none'
+        v = Float(x=v) if not isinstance(v, Float) else v
+        return 'nan' if v.isnan else 'inf' if v.isinf else 'finite'
+    mv = getattr(c, 'pos_maxval', None)
+    iv = getattr(c, 'inf_value', None)
+    at_bound = False
+    try:
+        at_bound = iv is not None and mv is not None and not Float(x=iv).isinf and abs(Float(x=iv)) == Float(x=mv)
+    except Exception:       # noqa: BLE001
+        pass
+    return (type(c).__name__, str(getattr(c, 'overflow', '')), bool(getattr(c, 'enable_nan', False)), bool(getattr(c, 'enable_inf', False)),
+            bool(getattr(c, 'enable_neg_zero', True)), kind(getattr(c, 'nan_value', None)), kind(iv), at_bound)
+
+
 def run(tier: str) -> int:
     rep = core.Report('C10', tier)
     rng = random.Random(core.seed())
     ctxs = [c for c in gen_num.contexts('quick', rng) if not isinstance(c, RealContext)]
+    # stratified: every class of context (family, overflow rule, NaN / infinity options and kind of substitute, signed zero)
+    # is represented in every run; within a class a seeded 1/40 (quick) or 1/4 (thorough) sample
+    groups: dict = {}
+    for c in ctxs:
+        groups.setdefault(ctx_class(c), []).append(c)
     step = 40 if tier == 'quick' else 4
-    off = core.seed() % step
-    ctxs = ctxs[off::step]
+    ctxs = []
+    for k in sorted(groups, key=repr):
+        g = groups[k]
+        ctxs += rng.sample(g, min(len(g), max(3 if tier == 'quick' else 8, -(-len(g) // step))))
     jobs = [(i, c, 4) for i, c in enumerate(ctxs)]
     res = core.pool_map(record, jobs, chunksize=2)
     recs, stats = [], Counter()
@@ -172,7 +196,7 @@ def run(tier: str) -> int:
     rep.cov.update({'contexts': len(ctxs), 'evaluations': len(recs), 'traces_validated_against_impl': len(recs),
                     'distinct_nontrivial': len({(repr(r['ctx']), r['label']) for r in recs}),
                     'refusals_and_duplicates': dict(stats),
-                    'rule': 'contexts of every family (a seeded 1/40 (quick) or 1/4 (thorough) slice of the C01 enumeration) x every distinct '
+                    'rule': 'contexts of every family (stratified by class of context: per class a seeded 1/40 (quick) or 1/4 (thorough) sample, at least 3 / 8, of the C01 enumeration) x every distinct '
                             'output of every chain prefix / single rewrite x every quarter-gap operand and special; non-trivial = (context, rewrite) pair'})
     for r in recs[:: max(1, len(recs) // 4)][:4]:
         rep.sample(r)
